@@ -49,18 +49,26 @@ def norm_bits(b):
     return BITS if b in (-1, None) else b
 
 
-def run(ctx):
+def run(ctx, only=None):
     ok, res = core.proof_step(ctx)
     rng = ctx.rng
     from rdkit import RDLogger
     RDLogger.DisableLog('rdApp.*')          # RDKit's C++ parser messages for the unreadable inputs
     cases, payloads, mexpr = [], {}, {}
-    found_input = False
+    state = {'found': False}
     dist = {'naming_strings': 0, 'entry': {}, 'first_class': {}, 'level': {}, 'all_iters': 0, 'save': 0, 'unnamed': 0,
             'suffix_names_outside_property': 0, 'first_outside_property': 0, 'smiles_histories': 0, 'smiles_calls': 0,
             'out_ext': {}, 'errors': 0, 'n_confs': {}}
 
+    def pfail(key, what, payload, finding_key=None):
+        """A property-level failure observed on the implementation for case `key`."""
+        if only is not None and key != only:
+            return
+        state['found'] = True
+        ctx.fail(what, dict(payload, case_key=key), finding_key=finding_key, kind='property')
+
     def add_case(key, expr, payload, model_out=None):
+        payload = dict(payload, case_key=key)
         cases.append((key, expr))
         payloads[key] = payload
         if model_out:
@@ -88,10 +96,10 @@ def run(ctx):
             exp = '(Ok (mkitem %s %s %s, %s))' % (strlit(mn), optlit(ps), optlit(cn), strlit(cname))
             # the property's clause, stated on the implementation: plain names give <name>_<j>
             if is_plain(s) and cname != '%s_%d' % (s, j):
-                found_input = True
-                ctx.fail('conformer name of a plain molecule name is not <name>_<index>', {'name': s, 'j': j, 'impl': cname}, kind='property')
+                pfail('name/%d' % len(cases), 'conformer name of a plain molecule name is not <name>_<index>', {'name': s, 'j': j, 'impl': cname})
         else:
-            exp = '(Raises %s)' % r[1]
+            # no match: re.match returns None and .groups() raises AttributeError, which the model writes Raises EOther
+            exp = '(Raises %s)' % ('EOther' if r[1] == 'EUnexpected_AttributeError' else r[1])
         m = 'rbind (from_str %s) (fun mi => Ok (mi, to_conf_name mi (Some %s)))' % (strlit(s), zlit(j))
         key = 'name/%d' % len(cases)
         add_case(key, 'result_eqb (pair_eqb mol_item_eqb String.eqb) (%s) %s' % (m, exp), {'string': s, 'j': j, 'impl': r[1]}, m)
@@ -143,6 +151,8 @@ def run(ctx):
         os.makedirs(cdir)
         out_ext = rng.choice([None, '.fp.pkl', '.fp.gz', '.fp.bz2'])
         overwrite = rng.choice([None, False, True])
+        if ci == 4:
+            overwrite = None            # directed: a half-written all_iters molecule re-run without overwrite
         P = {'bits': bits_p, 'level': level_p, 'first': first_param, 'out_dir_base': None, 'out_ext': out_ext if save else None,
              'all_iters': all_iters, 'overwrite': overwrite if save else None}
         if save and not (rng.random() < 0.04 and all_iters and level_p[0] == 'val' and level_p[1] >= 0):
@@ -177,6 +187,8 @@ def run(ctx):
             target = [(P['out_dir_base'] + ('_complete' if lv == -1 else str(lv)), name + ext)] if (lv == -1 or not ai) else \
                 [(P['out_dir_base'] + str(i), name + ext) for i in range(lv + 1)]
             pre = target if mode == 'all' else [p for p in target if rng.random() < 0.5] if mode == 'some' else []
+            if ci == 4:
+                pre = target[1:2]
             for k, p in enumerate(pre):
                 os.makedirs(p[0], exist_ok=True)
                 open(os.path.join(*p), 'wb').write(PG.SENTINEL % k)
@@ -213,8 +225,7 @@ def run(ctx):
                     fs_after.append((p, PG.read_content(os.path.join(root, f))))
         unread = [p for p, c in fs_after if c is not None and c[0] == 'unreadable']
         if unread:
-            found_input = True
-            ctx.fail('a saved fingerprint file cannot be reloaded with loadz', {'files': unread, 'params': str(kw)}, kind='property')
+            pfail('entry/%s/%d' % (entry, ci), 'a saved fingerprint file cannot be reloaded with loadz', {'files': unread, 'params': str(kw)})
             fs_after = [(p, c) for p, c in fs_after if c is None or c[0] != 'unreadable']
         conf_ids = list(range(mol.GetNumConformers()))
         tl = PG.table_lit(table)
@@ -262,10 +273,11 @@ def run(ctx):
                     if want is not None and want[0] == 'ok' and (o['idx'] != want[1]['idx'] or o['cnt'] != want[1]['cnt'] or o['kind'] != want[1]['kind']):
                         problems.append('fingerprint %d at level %d differs from direct fingerprinting of conformer %d' % (j, k, j))
             if problems:
-                found_input = True
                 payload2 = dict(payload)
                 payload2['problems'] = problems[:6]
-                ctx.fail('entry point %s differs from direct fingerprinting: %s' % (entry, '; '.join(problems[:3])), payload2, kind='property')
+                pfail(key, 'entry point %s differs from direct fingerprinting: %s' % (entry, '; '.join(problems[:3])), payload2)
+        if in_prop and lv >= -1 and r[0] == 'err' and not save and init == '(Ok tt)' and len(conf_ids) >= 1 and all(v[0] == 'ok' for v in table.values()):
+            pfail(key, 'entry point %s raised %s although direct fingerprinting of every conformer succeeds' % (entry, r[1]), payload)
         # bookkeeping
         dist['entry'][entry] = dist['entry'].get(entry, 0) + 1
         fc = 'absent(3)' if first_param is None else '-1' if first == -1 else '<n' if 1 <= first < len(conf_ids) else '=n' if first == len(conf_ids) else '>n' if first > len(conf_ids) else 'outside(0,<-1)'
@@ -294,10 +306,60 @@ def run(ctx):
         ctx.count(('emptyname', tag), True)
         dist['unnamed'] += 1
         if not (r[0] == 'ok' and len(r[1].get(2, [])) == 2 and all(x.name is None for x in r[1][2])):
-            found_input = True
-            ctx.fail('a molecule whose _Name is "" (SDF record with an empty title line) is not fingerprinted as an unnamed molecule',
-                     {'name': '', 'molecule': tag, 'n_conformers': 2, 'impl_result': str(r)[:200], 'expected': '2 unnamed fingerprints at level 2'},
-                     kind='property')
+            pfail('emptyname/%d' % ei, 'a molecule whose _Name is "" (SDF record with an empty title line) is not fingerprinted as an unnamed molecule',
+                  {'name': '', 'molecule': tag, 'n_conformers': 2, 'impl_result': str(r)[:200], 'expected': '2 unnamed fingerprints at level 2'})
+
+    # ---------------------------------------------------------------- D2. the modelled error branches, once per run:
+    #   zero conformers (NameError at the log line -> {}), an exception inside the conformer loop (a molecule without heavy
+    #   atoms is rejected by Fingerprinter.run -> {}), an SDF file the reader cannot read (the error propagates)
+    from rdkit import Chem
+    from rdkit.Chem import AllChem
+    m_noconf = Chem.MolFromSmiles('CCO')
+    m_noconf.SetProp('_Name', 'noconf')
+    m_h2 = Chem.MolFromSmiles('[H][H]')
+    AllChem.EmbedMolecule(m_h2, randomSeed=7)
+    m_h2.SetProp('_Name', 'h2mol')
+    dist['error_branches'] = {}
+    for label, mol_x in (('zero-conformers', m_noconf), ('fingerprinter-rejects', m_h2)):
+        for entry in ('dict_mol', 'from_mol'):
+            Px = {'bits': ('val', 1024), 'level': ('val', 2), 'first': 2, 'out_dir_base': None, 'out_ext': None, 'all_iters': None, 'overwrite': None}
+            kwx = PG.kwargs_of(Px, {})
+            tx = PG.direct_table(mol_x, 1024, 2, [2], {})
+            if entry == 'dict_mol':
+                r, msgs = PG.logged_call(lambda: G.fprints_dict_from_mol(mol_x, **kwx))
+                r = ('ok', PG.dict_obs(r[1])) if r[0] == 'ok' else r
+                m = 'x_dict %s (Ok tt) [] %s (args_of_params unit %s false)' % (PG.table_lit(tx), PG.mol_lit('noconf' if mol_x is m_noconf else 'h2mol', list(range(mol_x.GetNumConformers()))), PG.fparams_lit(Px))
+                cmp_, kind = 'fdict_eqb', 'dict'
+            else:
+                r, msgs = PG.logged_call(lambda: pipeline.fprints_from_mol(mol_x, fprint_params=kwx))
+                r = ('ok', [fpgen.obs(x) for x in r[1]]) if r[0] == 'ok' else r
+                m = 'x_from_mol %s (Ok tt) [] %s %s false' % (PG.table_lit(tx), PG.mol_lit('noconf' if mol_x is m_noconf else 'h2mol', list(range(mol_x.GetNumConformers()))), PG.fparams_lit(Px))
+                cmp_, kind = 'list_eqb fp_obs_eqb', 'list'
+            key = 'errbranch/%s/%s' % (label, entry)
+            add_case(key, 'let out := %s in result_eqb (%s) (o_val out) %s && option_eqb Z.eqb (o_logged out) %s'
+                     % (m, cmp_, PG.result_obs_lit(r, kind), optlit(PG.generated_count(msgs))),
+                     {'branch': label, 'entry': entry, 'impl_result': str(r)[:200], 'direct_fingerprinting': {str(k): v[0] for k, v in tx.items()}},
+                     'let out := %s in (o_val out, o_logged out)' % m)
+            ctx.count(('errbranch', label, entry), True)
+            dist['error_branches'][label] = dist['error_branches'].get(label, 0) + 1
+            # the branch must really have been taken
+            want = ('ok', []) if entry == 'dict_mol' else ('err', 'EValue')
+            if (r[0], r[1] if r[0] == 'err' else list(r[1])) != want:
+                pfail(key, 'error branch %s: %s did not return the documented result ({} / ValueError)' % (label, entry), {'impl_result': str(r)[:200]})
+    for label in ('garbage', 'missing'):
+        fn = os.path.join(ctx.workdir, 'unreadable_%s.sdf' % label)
+        if label == 'garbage':
+            open(fn, 'w').write('this is not\nan SD file\n$$$$\n')
+        own = fpgen.attempt(lambda: mol_from_sdf(fn))                       # the harness's own read
+        r, _ = PG.logged_call(lambda: pipeline.fprints_from_sdf(fn, fprint_params={'level': 2}))
+        Px = {'bits': ('absent',), 'level': ('val', 2), 'first': None, 'out_dir_base': None, 'out_ext': None, 'all_iters': None, 'overwrite': None}
+        key = 'errbranch/unreadable-sdf/%s' % label
+        same = own[0] == 'err' and r[0] == 'err' and own[1] == r[1]
+        m = 'x_from_sdf [] (Ok tt) [] (Raises EOther) %s false' % PG.fparams_lit(Px)
+        add_case(key, ('result_eqb (list_eqb fp_obs_eqb) (o_val (%s)) (Raises EOther)' % m) if same else 'false',
+                 {'branch': 'unreadable SDF', 'file': label, 'reader_alone': str(own)[:120], 'fprints_from_sdf': str(r)[:120]}, 'o_val (%s)' % m)
+        ctx.count(('errbranch', 'unreadable', label), True)
+        dist['error_branches']['unreadable-sdf'] = dist['error_branches'].get('unreadable-sdf', 0) + 1
 
     # ---------------------------------------------------------------- E. fprints_from_smiles: histories of calls
     real_gc = pipeline.generate_conformers
@@ -344,8 +406,7 @@ def run(ctx):
             finally:
                 pipeline.generate_conformers = real_gc
             if cp is not None and cp != cp_before:
-                found_input = True
-                ctx.fail('fprints_from_smiles modified the confgen_params dict passed by the caller', {'before': cp_before, 'after': cp}, kind='property')
+                pfail('smiles/%d' % hi, 'fprints_from_smiles modified the confgen_params dict passed by the caller', {'before': cp_before, 'after': cp})
             eff = [(k, int(v)) for k, v in seen.get('kwargs', {}).items() if k != 'save']
             gen_out = seen.get('out')
             cid0 = (hi * 10 + ck) * 1000
@@ -381,18 +442,22 @@ def run(ctx):
         ctx.count(('smiles', hi, str(hist_payload)[:2000]), nontrivial=True)
         dist['smiles_histories'] += 1
         if dflt_after:
-            found_input = True
-            ctx.fail('fprints_from_smiles left entries in its default confgen_params dict: a later call inherits them',
-                     {'history': hist_payload, 'default_dict_after': dflt_after}, kind='property')
+            pfail(key, 'fprints_from_smiles left entries in its default confgen_params dict: a later call inherits them',
+                  {'history': hist_payload, 'default_dict_after': dflt_after})
             dflt_obj.clear()
 
     for k in cases[:2] + [c for c in cases if c[0].startswith('entry/')][:3] + [c for c in cases if c[0].startswith('smiles/')][:1]:
         ctx.sample({'case': k[0], 'input_and_implementation_result': payloads[k[0]], 'model_check': k[1][:300]}, maxn=7)
+    if only is not None:
+        cases = [c for c in cases if c[0] == only]
     name_cases = [c for c in cases if c[0].startswith('name/')]
     other_cases = [c for c in cases if not c[0].startswith('name/')]
-    nbad = core.compare_cases(ctx, name_cases, IMPORTS, 'C14 MolItemName', payloads, model_expr=mexpr, shard=250)
-    nbad += core.compare_cases(ctx, other_cases, IMPORTS, 'C14 entry points', payloads, model_expr=mexpr, shard=25)
-    found_input = found_input or nbad > 0
+    nbad = 0
+    if name_cases or only is None:          # a replay evaluates the recorded case only
+        nbad += core.compare_cases(ctx, name_cases, IMPORTS, 'C14 MolItemName', payloads, model_expr=mexpr, shard=250)
+    if other_cases or only is None:
+        nbad += core.compare_cases(ctx, other_cases, IMPORTS, 'C14 entry points', payloads, model_expr=mexpr, shard=25)
+    found_input = state['found'] or nbad > 0
     ctx.coverage['rule'] = ('shipped SDF molecules cut to 1-6 conformers x first in {-1,1,2,n-1,n,n+3} (a few 0/<-1 and the absent default 3) x level '
                             '{-1,None,absent,0,1,2,3,5} x all_iters x bits {absent,None,-1,32,1024,4096} x seven pass-through options x four entry points '
                             'x save (three extensions, pre-existing sentinel files, overwrite); plus MolItemName on random strings over {letters,digits,-,_,newline,non-ASCII} '
@@ -401,14 +466,15 @@ def run(ctx):
     ctx.coverage['input_distribution'] = dist
     ctx.assumptions += [
         'per-conformer fingerprinting is a parameter of the model (Section variable fprint); the theorems that need it assume '
-        'fprint_truncation (C12: query k (run L) = query k (run k) for 0 <= k <= L); in the cases it is a table recorded from direct Fingerprinter use',
+        'fprint_truncation (C12: a successful query at level k of the run to the level cap L equals the query of a run limited to k); all_iters_spec_M1 discharges it for model M1 '
+        '(Proofs/PipelineM1.v, premise left: the iteration bound fuel exceeds L); in the cases the function is a table recorded from direct Fingerprinter use',
         'pickle round trip (unpickle (pickle l) = Some l) is a hypothesis of saved_reload; exercised by save + loadz for every out_ext',
         'conformer generation (RDKit ETKDG + force field) and the SD reader/writer are oracles; the conformers a SMILES call produced are recorded '
         'by wrapping pipeline.generate_conformers in the harness process (no source hook)',
         'molecule names are byte strings without non-ASCII decimal digits and without "/" (os.path.join); int() limits on >4300-digit groups ignored',
         'touch_dir, logging other than the Generated-N line, and I/O errors inside savez are not modelled']
-    ctx.coverage['trusted_base'] = ['Section hypotheses named in Properties/C14.v: fprint_truncation (all_iters_spec), unpickle_pickle (saved_reload)']
-    if not ok:
+    ctx.coverage['trusted_base'] = ['premises named in Properties/C14.v: fprint_truncation (all_iters_spec; discharged for M1 in all_iters_spec_M1), unpickle_pickle (saved_reload, saved_reload_all_iters)']
+    if not ok and only is None:
         core.report_broken_proof(ctx, res, found_input)
 
 
@@ -417,6 +483,5 @@ def cp_lit(items):
 
 
 def replay(ctx, path):
-    d = json.load(open(path))
-    print(json.dumps(d, indent=1)[:6000])
-    return 0
+    """Re-run the recorded case on both sides (same seed and tier => same generated inputs); exit 1 + VIOLATION if it still fails."""
+    return PG.replay_case(ctx, path, run)
